@@ -144,18 +144,41 @@ def lean_input(case):
     return out, objs
 
 
+def all_inputs(case):
+    if case.get("dom") == "hashseed" or "all(" not in case["expr"]:
+        return []
+    try:
+        calls = all_calls(case["expr"])
+    except SyntaxError:
+        return []
+    if not calls:
+        return []
+    _env, names = names_of(case)
+    outs = []
+    for c in calls:
+        _t, _a, truths = iteration_of(c, names)
+        outs.append({"dom": "alltrace", "truths": truths})
+    return outs
+
+
 def driver_inputs(case):
     if case.get("dom") == "hashseed":
         return []
     li, _objs = lean_input(case)
-    return [li] if li is not None else []
+    return ([li] if li is not None else []) + all_inputs(case)
+
+
+def split_mos(mos):
+    """(the expr-domain output or None, the alltrace outputs in source order of the all(...) calls)"""
+    expr = [m for m in (mos or []) if "py" in m]
+    return (expr[0] if expr else None), [m for m in (mos or []) if "firstFalsy" in m]
 
 
 def model_view(case, mos):
-    if not mos:
+    mo, _alls = split_mos(mos)
+    if mo is None:
         return None
     li, objs = lean_input(case)
-    mo = mos[0]
     ar = a_repr_of(case)
 
     def render(j):
@@ -238,6 +261,56 @@ def used_names(expr):
     return set(n.id for n in ast.walk(implexpr.parse_expr(expr)) if isinstance(n, ast.Name) and isinstance(n.ctx, ast.Load))
 
 
+def all_calls(expr):
+    """the `all(<generator expression>)` calls of the condition that are not inside a comprehension, in source order"""
+    tree = implexpr.parse_expr(expr)
+    inside = set()
+    for n in ast.walk(tree):
+        if isinstance(n, (ast.ListComp, ast.SetComp, ast.DictComp, ast.GeneratorExp)):
+            for d in ast.walk(n):
+                if d is not n:
+                    inside.add(id(d))
+    out = []
+    for n in ast.walk(tree):
+        if isinstance(n, ast.Call) and isinstance(n.func, ast.Name) and n.func.id == "all" and len(n.args) == 1 \
+                and isinstance(n.args[0], ast.GeneratorExp) and not n.keywords and id(n) not in inside:
+            out.append(n)
+    out.sort(key=lambda n: (n.lineno, n.col_offset))
+    return out
+
+
+def iteration_of(call_node, scope):
+    """(targets, [assignment tuples], [truth of the element or "raise"]) in Python's iteration order; the
+    iteration stops at the first element whose evaluation or truth test raises"""
+    gen = copy.deepcopy(call_node.args[0])
+    targets = []
+    for g in gen.generators:
+        for n in ast.walk(g.target):
+            if isinstance(n, ast.Name) and n.id not in targets:
+                targets.append(n.id)
+    elt = gen.elt
+    gen.elt = ast.Tuple(elts=[ast.Name(id=t, ctx=ast.Load()) for t in targets] + [ast.Lambda(
+        args=ast.arguments(posonlyargs=[], args=[ast.arg(arg=t) for t in targets], kwonlyargs=[], kw_defaults=[], defaults=[
+            ast.Name(id=t, ctx=ast.Load()) for t in targets]), body=elt)], ctx=ast.Load())
+    expr = ast.Expression(gen)
+    ast.fix_missing_locations(expr)
+    assigns, truths = [], []
+    try:
+        it = eval(compile(expr, "<all>", "eval"), dict(scope))
+        for item in it:
+            vals, thunk = item[:-1], item[-1]
+            assigns.append(vals)
+            try:
+                truths.append(bool(thunk()))
+            except Exception:  # noqa: B902
+                truths.append("raise")
+                break
+    except Exception:  # noqa: B902 - the iteration itself raises
+        assigns.append(None)
+        truths.append("raise")
+    return targets, assigns, truths
+
+
 def first_falsifying(call_node, scope):
     """the first assignment of the loop variables of `all(<generator>)` that makes the element falsy"""
     gen = copy.deepcopy(call_node.args[0])
@@ -256,13 +329,27 @@ def first_falsifying(call_node, scope):
     return dict(zip(targets, vals))
 
 
-def check_all_example(tree, d, key, val, names, ar):
-    """the `all(...) was False, e.g., with` block shows the first falsifying assignment, through a_repr"""
+def check_all_example(tree, d, key, val, names, ar, case=None, mos=None):
+    """the `all(...) was False, e.g., with` block shows the first falsifying assignment, through a_repr.
+    Which assignment is the first falsifying one is decided by the model (`traceAllIdx` over the iteration
+    CPython produces) when the call is a top-level `all(<generator>)`; otherwise by direct evaluation."""
     call = [n for n in ast.walk(tree) if isinstance(n, ast.Call) and ast.dump(n) == d]
     try:
         want = first_falsifying(call[0], names)
     except Exception as ex:  # noqa: B902
         return "could not compute the first falsifying assignment of %s: %r" % (key, ex)
+    if case is not None and mos:
+        _e, alls = split_mos(mos)
+        tops = all_calls(case["expr"])
+        for j, c in enumerate(tops):
+            if ast.dump(c) == d and j < len(alls) and isinstance(alls[j]["firstFalsy"], int):
+                targets, assigns, _truths = iteration_of(c, names)
+                by_model = dict(zip(targets, assigns[alls[j]["firstFalsy"]]))
+                if want is not None and dict((k, ar.repr(v)) for k, v in by_model.items()) != dict((k, ar.repr(v)) for k, v in want.items()):
+                    import common
+                    raise common.Infra("harness: model and direct evaluation disagree on the first falsifying assignment of %s" % key)
+                want = by_model
+                break
     got = {}
     cur = None
     for ln in val.split("\n")[1:]:
@@ -278,7 +365,7 @@ def check_all_example(tree, d, key, val, names, ar):
     return None
 
 
-def check_values(case, io):
+def check_values(case, io, mos=None):
     """C06: soundness and completeness of the value lines"""
     fails = []
     if io.get("define") != ["ok"] or not io["oracle_value_falsy"] or io["out"][0] != "ViolationError":
@@ -311,7 +398,7 @@ def check_values(case, io):
             if val in cands:
                 continue
             if val.startswith("False, e.g., with") and any(e["rendered"] == "False" for e in ev_by_dump[d]):
-                f = check_all_example(tree, d, key, val, names, ar)
+                f = check_all_example(tree, d, key, val, names, ar, case, mos)
                 if f:
                     fails.append(f)
                 continue
@@ -395,7 +482,7 @@ def check_surface(case, io):
     return fails
 
 
-def check_determinism(case, io):
+def check_determinism(case, io, mos=None):
     """C20 on one case with call variants"""
     fails = []
     if io.get("define") != ["ok"]:
@@ -427,7 +514,7 @@ def check_determinism(case, io):
     for k, v in io["entries"]:
         d = norm(k)
         if d in ev and v.startswith("False, e.g., with"):
-            f = check_all_example(implexpr.parse_expr(case["expr"]), d, k, v, names, a_repr_of(case))
+            f = check_all_example(implexpr.parse_expr(case["expr"]), d, k, v, names, a_repr_of(case), case, mos)
             if f:
                 fails.append(f)
         if d in ev and not v.startswith("False, e.g., with"):
@@ -511,7 +598,10 @@ def stats(case, mos, io, dist):
         dist["hashseed_cases"] += len(case["cases"])
         return
     dist["layout:" + case.get("layout", "oneline")] += 1
-    dist["tied_to_model:%s" % bool(mos)] += 1
+    _e, _alls = split_mos(mos)
+    dist["tied_to_model:%s" % bool(_e)] += 1
+    if _alls:
+        dist["all_calls_decided_by_model"] += len(_alls)
     if io.get("define") == ["ok"]:
         dist["out:" + io["out"][0]] += 1
         dist["value_lines:%d" % min(len(io.get("entries", [])), 12)] += 1
